@@ -27,6 +27,21 @@ CHECKS = {
         engine="E4-scenarios + E3-trace", ref="DESIGN.md 6 C04"),
 }
 
+CHECKS.update({
+    "C10": dict(
+        text="The reservation (invokeCtx, reply stream, reservation context, completion channel) and the goroutines of Server.Invoke (main/timer, release, FastInvoke, inner) are modelled per invocation in spec/Rapid.tla. Scenarios place a second and a third caller at every phase of the first invocation (during init, after dispatch, after the response while an extension finishes, during the timeout reset, after completion) and continue with a sequential invocation; TLC validates each recorded trace: the extra caller must be refused with the reservation error and nothing else may change. A crash of the emulator process is reported directly.",
+        note=SCEN_NOTE, technique="TLA+ spec + TLC trace validation of recorded full-stack traces; process crash detection",
+        engine="E4-scenarios + E3-trace", ref="DESIGN.md 6 C10"),
+    "C12": dict(
+        text="The runtime automaton (ten states), the ManagedThread suspend/release flag, the request-id middleware, the reply-stream checks and the rendering states are the API handler section of spec/Rapid.tla. Seeded random call sequences over {next, response/error with current, stale and unknown ids, init/error, snapshot routes, unknown routes, wrong methods} interleaved with invocations (with and without an extension that keeps invocations open) are executed against the real Runtime API; every answer (status, error type, invocation delivered, payload class) must be the one the specification computes in the state reached (TLC trace validation).",
+        note=SCEN_NOTE, technique="TLA+ spec + TLC trace validation of recorded full-stack traces (code -> spec conformance)",
+        engine="E4-scenarios + E3-trace", ref="DESIGN.md 6 C12"),
+    "C13": dict(
+        text="Agent automata (external/internal), registration service (name uniqueness across kinds, limit of ten, registration window), identifier middleware, event validation and the echoed registration data are part of spec/Rapid.tla. Seeded random call sequences per extension over {register(events,name,features,body), next, init/error, exit/error} with known/missing/invalid/unknown identifiers for 1..3 external and internal extensions, plus directories and registration series around the limit, are executed on the real Extensions API and validated by TLC against the specification.",
+        note=SCEN_NOTE, technique="TLA+ spec + TLC trace validation of recorded full-stack traces (code -> spec conformance)",
+        engine="E4-scenarios + E3-trace", ref="DESIGN.md 6 C13"),
+})
+
 NA = {
 }
 
